@@ -2074,7 +2074,7 @@ func cmpC16(c hx.Case, impl any, reply map[string]any) hx.Verdict {
 			}
 			// second call (theorem second_call_changes_nothing: where the first call left only internal texts, a further call
 			// adds nothing and renames nothing); compared with the model's second run where that hypothesis holds
-			if jbool(model, "allint") {
+			if jbool(model, "allint") || os.Getenv("VERIF_C16_SECOND_ALWAYS") != "" {
 				if jbool(im, "ipanic2") {
 					md = append(md, "second call of InternalizeRefs panicked: "+fmt.Sprint(im["panicmsg2"]))
 				} else if jstr(model, "outcome2") != "done" {
